@@ -13,7 +13,12 @@ Three correspondence streams
           membership in a generated set), against canon / resolve / add_flavor / vf_write
   stack   product records declared through the real Database.declare on a real scratch stack, read
           back, the stack renamed and then copied, every record resolved again; against db_declare and
-          db_find, step by step
+          db_find, step by step.  The stack may be reached through a symbolic link (the stack directory
+          is a link, or a directory above it is), declarations are made through the link or through the
+          resolved name with either spelling of the paths, from a working directory inside the product,
+          inside the stack or elsewhere; the records are read through the link and through the resolved
+          name, and again after the move.  The link table and the working directory are data for the
+          model (Model/Paths.v penv).
 and the property's own oracle on the implementation's outputs of the stack stream.
 """
 import json
@@ -468,6 +473,8 @@ def run_paths(ctx, cases, scratch):
 STACKNAMES = ["stack", "my stack", "st.1", "a-b c"]
 OUTNAMES = ["outside", "else where"]
 RELPARTS = ["Linux64", "Darwin", "pkgs", "x86 64", "v1.2", "share", "ups_dbx", "ups"]
+LINKNAMES = ["lnk", "a much longer link name", "l k"]
+PARENTNAMES = ["parent", "par ent"]
 
 
 def gen_stack(rng, force=None):
@@ -496,6 +503,21 @@ def gen_stack(rng, force=None):
     c = {"kind": "stack", "stack": rng.choice(STACKNAMES), "out": rng.choice(OUTNAMES), "name": name,
          "version": version, "recs": recs, "moved": rng.choice(["moved", "new place", "stack2"]),
          "copied": rng.choice(["copy", "the copy"]), "legacy": None, "shape": "stack"}
+    # how the stack is reached: by its own name, by a link to the stack directory, by a link to its parent
+    c["via"] = rng.choice([None, None, None, "stacklink", "stacklink", "parentlink"])
+    if c["via"]:
+        c["lname"] = rng.choice(LINKNAMES)
+        c["pname"] = rng.choice(PARENTNAMES)
+        # the first [direct] flavors are declared through the resolved name, the others through the link
+        c["direct"] = rng.choice([0, 0, 1]) if len(recs) > 1 else 0
+        c["relink"] = rng.random() < 0.5
+    for r in recs:
+        # the working directory of the declaring process
+        r["cwd"] = rng.choice(["empty", "empty", "proddir", "proddir", "proddir", "upsdir", "stack", "tabdir", "out"])
+        if c["via"]:
+            # the paths handed over are spelt like the stack is (same) or the other way (link / resolved name)
+            r["spell_dir"] = rng.choice(["same", "same", "same", "other"])
+            r["spell_tab"] = rng.choice(["same", "same", "same", "other"])
     if rng.random() < 0.06:
         # a version file that already holds a block written by other means (older eups, hand edit,
         # VersionFile API) for a flavor that is not redeclared
@@ -564,35 +586,62 @@ def impl_stack(cases, scratch):
     out = []
     for n, c in enumerate(cases):
         base = os.path.join(scratch, "c%d" % n)
-        root = os.path.join(base, c["stack"])
+        via = c.get("via")
+        # real: the stack directory; named: what EUPS_PATH says
+        if via == "parentlink":
+            real = os.path.join(base, c["pname"], c["stack"])
+            named = os.path.join(base, c["lname"], c["stack"])
+        else:
+            real = os.path.join(base, c["stack"])
+            named = os.path.join(base, c["lname"]) if via == "stacklink" else real
         outd = os.path.join(base, c["out"])
-        db = os.path.join(root, "ups_db")
         cwd = os.path.join(base, "cwd")
-        for d in (db, outd, cwd):
+        for d in (os.path.join(real, "ups_db"), outd, cwd):
             os.makedirs(d)
+        if via == "parentlink":
+            os.symlink(os.path.join(base, c["pname"]), os.path.join(base, c["lname"]))
+        elif via == "stacklink":
+            os.symlink(real, named)
         os.chdir(cwd)
         name, version = c["name"], c["version"]
-        res = {"base": base, "steps": [], "stages": []}
+        res = {"base": base, "steps": [], "stages": [], "real": real, "named": named}
+
+        def links_now():
+            out_ = []
+            for x in sorted(os.listdir(base)):
+                q = os.path.join(base, x)
+                if os.path.islink(q):
+                    out_.append([q, os.path.realpath(q)])
+            return out_
 
         def touch(p):
             os.makedirs(os.path.dirname(p), exist_ok=True)
             with open(p, "w") as f:
                 f.write("# table of %s\n" % name)
 
-        DBM._databases.clear()
-        D = DBM.Database(db)
-        vfile = os.path.join(db, name, version + ".version")
-        cfile = os.path.join(db, name, "current.chain")
+        vfile = os.path.join(real, "ups_db", name, version + ".version")
+        cfile = os.path.join(real, "ups_db", name, "current.chain")
         if c.get("legacy"):
             os.makedirs(os.path.dirname(vfile), exist_ok=True)
             with open(vfile, "w") as f:
                 f.write("".join(l + "\n" for l in c["legacy"]["lines"]))
-        for rec in c["recs"]:
-            e = expected_paths(c, rec, root, outd)
-            if e["dir"] != "none":
-                os.makedirs(e["dir"], exist_ok=True)
-            if e["table"] != "none":
-                touch(e["table"])
+        for k, rec in enumerate(c["recs"]):
+            # the name the stack goes by in this declaration, and its other name
+            through, other = (real, named) if k < c.get("direct", 0) else (named, real)
+            db = os.path.join(through, "ups_db")
+            DBM._databases.clear()
+            D = DBM.Database(db)
+            ereal = expected_paths(c, rec, real, outd)
+            if ereal["dir"] != "none":
+                os.makedirs(ereal["dir"], exist_ok=True)
+            if ereal["table"] != "none":
+                touch(ereal["table"])
+            e = {"dir": expected_paths(c, rec, through if rec.get("spell_dir", "same") == "same" else other, outd)["dir"],
+                 "table": expected_paths(c, rec, through if rec.get("spell_tab", "same") == "same" else other,
+                                         outd)["table"]}
+            where = {"proddir": ereal["dir"], "upsdir": os.path.join(ereal["dir"], "ups"), "stack": real,
+                     "tabdir": os.path.dirname(ereal["table"]), "out": outd}.get(rec.get("cwd", "empty"), cwd)
+            os.chdir(where if os.path.isdir(where) else cwd)
             ups_dir = "ups"
             tf = e["table"]
             if rec["table"] == "intern":
@@ -604,7 +653,7 @@ def impl_stack(cases, scratch):
             elif rec["table"] == "absdb" and rec.get("upsnone"):
                 ups_dir = None
             args = [name, version, rec["flavor"], e["dir"], tf, db, ups_dir]
-            step = {"args": args, "listing": listing(base),
+            step = {"args": args, "listing": listing(base), "cwd": os.getcwd(), "links": links_now(),
                     "old": split_file(vfile) if os.path.exists(vfile) else None}
             try:
                 D.declare(Product(name, version, rec["flavor"], e["dir"], tf, None, db, ups_dir=ups_dir))
@@ -620,6 +669,7 @@ def impl_stack(cases, scratch):
                 except Exception as ex:  # noqa
                     step["chain_err"] = errclass(type(ex).__name__)
             res["steps"].append(step)
+            os.chdir(cwd)
 
         def stage(label, rootdir):
             DBM._databases.clear()
@@ -627,7 +677,7 @@ def impl_stack(cases, scratch):
             dbp = os.path.join(rootdir, "ups_db")
             Dx = DBM.Database(dbp)
             vf = os.path.join(dbp, name, version + ".version")
-            st = {"label": label, "root": rootdir, "listing": listing(base),
+            st = {"label": label, "root": rootdir, "listing": listing(base), "links": links_now(),
                   "lines": split_file(vf) if os.path.exists(vf) else None, "found": {}, "tagged": {}}
             fls = [r["flavor"] for r in c["recs"]] + ([c["legacy"]["flavor"]] if c.get("legacy") else [])
             for fl in fls:
@@ -651,13 +701,19 @@ def impl_stack(cases, scratch):
             st["chain"] = split_file(cf) if os.path.exists(cf) else None
             res["stages"].append(st)
 
-        stage("declared", root)
+        stage("declared", named)
+        if via:
+            stage("declared-resolved", real)
         moved = os.path.join(base, c["moved"])
-        os.rename(root, moved)
+        os.rename(real, moved)
         stage("renamed", moved)
         copied = os.path.join(base, c["copied"])
-        shutil.copytree(moved, copied)
+        shutil.copytree(moved, copied, symlinks=True)
         stage("copied", copied)
+        if c.get("relink"):
+            relinked = os.path.join(base, "lnk 2")
+            os.symlink(copied, relinked)
+            stage("relinked", relinked)
         out.append(res)
         os.chdir(scratch)
         shutil.rmtree(base, ignore_errors=True)
@@ -702,6 +758,11 @@ def block_meaning(bl):
     return d
 
 
+def enc_envf(cwd, links):
+    """the environment field of the driver protocol: working directory & link=resolved name;..."""
+    return enc(cwd or "/") + "&" + ";".join(enc(l) + "=" + enc(t) for l, t in (links or []))
+
+
 def run_stack(ctx, cases, scratch):
     r = common.in_child(impl_stack, cases, scratch, timeout=1500)
     if r[0] != "ok":
@@ -711,12 +772,19 @@ def run_stack(ctx, cases, scratch):
     for c, i in zip(cases, ires):
         meta = "regex" if any(ch in c["version"] + "".join(x["rel"] for x in c["recs"]) for ch in "+*?[]()|^\\{}") \
             else "plain"
-        dist = "/".join("%s-%s" % (x["dir"], x["table"]) for x in c["recs"])
-        ctx.count(1, key="stack/%dfl/%s%s" % (len(c["recs"]), meta, "/legacy" if c.get("legacy") else ""),
-                  nontrivial=("stack", c["stack"], c["name"], c["version"], dist,
+        dist = "/".join("%s-%s-%s-%s%s" % (x["dir"], x["table"], x.get("cwd", "empty"), x.get("spell_dir", "same"),
+                                           x.get("spell_tab", "same")) for x in c["recs"])
+        ctx.count(1, key="stack/%dfl/%s%s/%s" % (len(c["recs"]), meta, "/legacy" if c.get("legacy") else "",
+                                                 c.get("via") or "direct"),
+                  nontrivial=("stack", c["stack"], c["name"], c["version"], dist, c.get("via"), c.get("direct"),
                               tuple(x["rel"] for x in c["recs"]), str(c.get("legacy"))))
-        for x in c["recs"]:
+        for k, x in enumerate(c["recs"]):
             ctx.bump("stack-record/%s-%s" % (x["dir"], x["table"]))
+            ctx.bump("stack-cwd/%s" % x.get("cwd", "empty"))
+            if c.get("via"):
+                ctx.bump("stack-declared/%s/%s/dir-%s/table-%s" % (
+                    c["via"], "resolved-name" if k < c.get("direct", 0) else "link",
+                    x.get("spell_dir", "same"), x.get("spell_tab", "same")))
         # correspondence is skipped when a path component holds a regex metacharacter: VersionFile.write
         # splices the directory into a pattern, which the model does not follow; the oracle still runs
         state.append({"vf": c["legacy"]["lines"] if c.get("legacy") else None, "cf": None, "ok": meta == "plain"})
@@ -727,7 +795,7 @@ def run_stack(ctx, cases, scratch):
         for n in todo:
             st = ires[n]["steps"][k]
             qs.append("\t".join(["declare", "1", enc_list(";", st["listing"]), enc_product(st["args"]),
-                                 enc_lines(state[n]["vf"])]))
+                                 enc_lines(state[n]["vf"]), enc_envf(st.get("cwd"), st.get("links"))]))
         outs = ctx.model(qs)
         cq, cn = [], []
         for n, line in zip(todo, outs):
@@ -768,7 +836,7 @@ def run_stack(ctx, cases, scratch):
             for fl in stg["found"]:
                 qs.append("\t".join(["find", enc_list(";", stg["listing"]), enc(c["name"]), enc(c["version"]), enc(fl),
                                      enc_val(stg["root"]), enc_val(stg["root"] + "/ups_db"),
-                                     enc_lines(state[n]["vf"])]))
+                                     enc_lines(state[n]["vf"]), enc_envf(None, stg.get("links"))]))
                 keys.append((n, stg["label"], fl, "find"))
             if state[n]["cf"] is not None or stg["chain"] is not None:
                 qs.append("\t".join(["cfversions", enc(c["name"]), enc("current"), enc_lines(stg["chain"]),
@@ -799,12 +867,13 @@ def run_stack(ctx, cases, scratch):
                 ctx.disagree({"case": c, "stage": label}, f, want, where="stack-tagged")
     # ---- the property's own oracle, on what the implementation did
     for c, i in zip(cases, ires):
-        oracle_stack(ctx, c, i, os.path.join(i["base"], c["stack"]), os.path.join(i["base"], c["out"]))
+        oracle_stack(ctx, c, i, i["named"], os.path.join(i["base"], c["out"]))
 
 
 def oracle_stack(ctx, c, i, root0, outd):
     name, version = c["name"], c["version"]
-    small = {k: c[k] for k in ("kind", "stack", "out", "name", "version", "recs", "moved", "copied", "legacy", "shape")}
+    small = {k: c[k] for k in ("kind", "stack", "out", "name", "version", "recs", "moved", "copied", "legacy", "shape",
+                               "via", "lname", "pname", "direct", "relink") if k in c}
     prev_blocks, prev_chain = (blocks_of(c["legacy"]["lines"]) if c.get("legacy") else {}), {}
     declared = []
     for rec, st in zip(c["recs"], i["steps"]):
@@ -841,7 +910,12 @@ def oracle_stack(ctx, c, i, root0, outd):
         for rec in c["recs"]:
             e = expected_paths(c, rec, root, outd)
             got = stg["found"].get(rec["flavor"])
-            where = "%s, flavor %s: %s dir, %s table" % (stg["label"], rec["flavor"], rec["dir"], rec["table"])
+            where = "%s, flavor %s: %s dir, %s table, declared from %s%s" % (
+                stg["label"], rec["flavor"], rec["dir"], rec["table"],
+                {"empty": "an empty directory", "proddir": "inside the product directory",
+                 "upsdir": "inside the product's ups directory", "stack": "the stack directory",
+                 "tabdir": "the directory of the table file", "out": "outside the stack"}[rec.get("cwd", "empty")],
+                (", stack reached by %s" % c["via"]) if c.get("via") else "")
             if not got or "err" in got:
                 ctx.fail("find-fails", small, expected=e, observed=got, what="findProduct fails (%s)" % where)
                 continue
@@ -1129,7 +1203,13 @@ def setup(ctx):
                 "resolvePaths and addFlavor+write(trimDir); stack: 1-3 flavors per record, directory inside / outside "
                 "/ none x table in ups / absolute inside / absolute outside / interned / absolute in the database / "
                 "none, stack and outside names with spaces, optional pre-existing block, tags, declared through "
-                "Database.declare, stack renamed, then copied; tags: two versions x 2-3 flavors of one product, 4-8 "
+                "Database.declare, stack renamed, then copied; half of the stacks are reached through a symbolic link "
+                "(the stack directory is a link, or its parent is), flavors declared through the link or first through "
+                "the resolved name and then through the link (second flavor into an existing version file), directory "
+                "and table file spelt through the link or the resolved name independently, records read through the "
+                "link, through the resolved name, after the rename, after the copy and through a new link to the copy; "
+                "each declaration is made from a working directory that is empty / the product directory / its ups "
+                "directory / the stack / the directory of the table file / outside; tags: two versions x 2-3 flavors of one product, 4-8 "
                 "operations (Database.declare with or without a tag, assignTag, unassignTag, undeclare) on one flavor "
                 "at a time while the others already have version blocks and chain entries, stack renamed; non-trivial = at least one block (codec), every paths "
                 "case, every stack case; distinct = distinct input")
@@ -1137,15 +1217,16 @@ def setup(ctx):
         "modelled, not verified: python re on ASCII text for the five reader patterns and the five macro patterns, "
         "str.strip / lstrip / lower, os.path.join / dirname / basename / isabs on POSIX, dict insertion order",
         "file existence enters the model as the listing of the scratch tree taken by the harness just before each "
-        "step (os.path.exists, isfile and isdir are one oracle)"]
+        "step (os.path.exists, isfile and isdir are one oracle); the symbolic links of the scratch tree enter it as "
+        "the table (link, os.path.realpath(link)) taken at the same moment, the working directory as os.getcwd()"]
     ctx.assumptions = [
-        "no symbolic links inside the stack or on the way to it (realpath is the identity); paths are normalised",
+        "symbolic links only on the way to the stack root (the stack directory or a directory above it), none below "
+        "it and none on the way to outside products; at most 40 links are followed; paths are normalised",
         "record values are ASCII without hash, newline, carriage return or backslash; they neither begin nor end with "
         "a blank or a double quote (the malformed stream only checks that model and code agree on such values)",
         "flavor names hold no colon (qualifiers are empty)",
         "path components hold no regular-expression metacharacter other than the dot (VersionFile.write splices the "
         "product directory into a pattern); records with such components are checked by the oracle only",
-        "the current directory holds nothing a relative record value could name",
         "versions do not start with LOCAL:"]
 
 
